@@ -28,9 +28,10 @@ HALF_PI = math.pi / 2
 SING = 1e-6          # arguments are kept this far away from a singularity
 BIG = Fraction(10) ** 300
 
-# delivery-channel differential (core.Env): of every 2 evaluations that bind variables, one is repeated with the
-# values handed in by the cell/range listeners and one with the values returned by custom functions; outcomes must agree
-CHANNELS = 2
+# delivery-channel and host-type differential (core.Env): of every 3 evaluations that bind variables, one is repeated with the
+# values handed in by the cell/range listeners, one with the values returned by custom functions and one with every value an
+# instance of a trivial subclass of its type (numpy.float64, IntEnum, rich-text str ... are such); outcomes must agree
+CHANNELS = 3
 
 BOUNDS = {
     'quick': 'G = {k/8: |k|<=64} + {+-10^e: |e|<=6} (153 reals) + {k*PI()/12: |k|<=24}; 23 one-argument '
